@@ -8,6 +8,7 @@ import (
 	"encoding/json"
 	"fmt"
 	"os"
+	"runtime/debug"
 	"strings"
 )
 
@@ -67,6 +68,9 @@ func Run(f func()) (failed []string, mismatch []string, panicked interface{}) {
 					return
 				}
 				panicked = r
+				if os.Getenv("VERIF_REPLAY_STACK") != "" {
+					fmt.Printf("REPLAY-PANIC-STACK %v\n%s\n", r, debug.Stack())
+				}
 			}
 		}()
 		f()
